@@ -1,7 +1,7 @@
 (* C13 — slashing/jailing and admin operations compose safely. *)
 From stdpp Require Import gmap.
 Require Import Model.Base Model.Validate Model.State Model.Staking Model.Slashing Model.Poa Model.App.
-Require Import proofs.EvBasic proofs.InvFrame proofs.InvEvidence proofs.InvTomb proofs.InvJailed proofs.L1More proofs.Inv proofs.InvIdx proofs.InvPres proofs.InvMsgs proofs.InvHistory proofs.InvQueue proofs.InvPools proofs.InvComet proofs.InvElig.
+Require Import proofs.EvBasic proofs.InvFrame proofs.InvEvidence proofs.InvTomb proofs.InvJailed proofs.InvMissed proofs.L1More proofs.Inv proofs.InvIdx proofs.InvPres proofs.InvMsgs proofs.InvHistory proofs.InvQueue proofs.InvPools proofs.InvComet proofs.InvElig.
 
 (* admin operations aimed at a jailed validator fail cleanly (the transaction wrapper then restores the state) *)
 Theorem C13_set_power_on_jailed_fails : forall c val power unsafe v,
@@ -173,3 +173,17 @@ Theorem C13_tombstoned_meaning : forall c id k,
   TJ c id k <->
   (exists v, vals (stk c) !! id = Some v /\ v_cons v = k /\ v_jailed v = true) /\ (exists i, infos (sl c) !! k = Some i /\ si_tomb i = true).
 Proof. intros c id k. reflexivity. Qed.
+
+(* x/slashing's liveness accounting stays consistent whatever the admin does: in every reachable state, for every consensus key,
+   the missed-block counter of its signing info is the number of misses recorded in its bitmap (none twice), and a key without a
+   signing info has none recorded — so downtime is judged by the parameters, also for a validator that was removed, missed its
+   last votes, applied again and was re-admitted (R13; the code before it reset the counter and kept the bits) *)
+Theorem C13_missed_counter_is_the_number_of_recorded_misses : forall g bs k,
+  let l := sl (w_chain (run_world (init_world g) bs)) in
+  List.NoDup (bits l k) /\
+  match infos l !! k with Some i => si_missed i = Z.of_nat (length (bits l k)) | None => bits l k = [] end.
+Proof. intros g bs k. exact (reachable_MI g bs k). Qed.
+
+Theorem C13_legacy_admission_broke_the_accounting_refuted :
+  exists (l : slashing) (k : Z) (i : signing), MI l /\ si_missed i = 0 /\ ~ MI (set_info l k i).
+Proof. exact legacy_admission_breaks_the_accounting. Qed.
